@@ -81,6 +81,16 @@ Theorem C06_wrapper_windows_transparent :
     snd (wprof_run reg (0%nat, pst0) (wrap reg evs)) = prof_run reg pst0 evs.
 Proof. exact windows_transparent. Qed.
 
+(* kernprof -b: cProfile is the profiler, it records every function while it is on and
+   it is on only inside the decorated functions' windows: the data are exactly the
+   events of the profiled sections (`windowed_events`) - in particular NOTHING when
+   the program ends before its first profiled call, and the dump of
+   C06_dump_on_every_outcome still happens (an empty but freshly written file). *)
+Theorem C06_builtin_mode_records_profiled_sections :
+  forall (reg dec : Z -> bool) (evs : list pev),
+    snd (wprof_run reg (0%nat, pst0) (wrap dec evs)) = prof_run reg pst0 (windowed_events dec evs).
+Proof. exact builtin_mode_records_profiled_sections. Qed.
+
 Theorem C06_unwindowed_segment_would_be_lost :
   let ws := [WEnable; WE (PCall 0); WE (PLine 0 2); WE (PRet 0); WDisable;
              WE (PCall 0); WE (PLine 0 5); WE (PRet 0)] in
